@@ -23,7 +23,7 @@
        duplicated).  NOT proved: that no handler raises and that the budget sequence is finite
        (the UCS argument); checked by the oracle on every complete run of the correspondence
        (symmetric routes): quiescence is reached, nothing raised, every agent reported done. *)
-From PyDcop Require Import Base Net M_Ucs P_Ucs P_Ucs2 P_Ucs3 P_Ucs4 P_Ucs5.
+From PyDcop Require Import Base Net M_Ucs P_Ucs P_Ucs2 P_Ucs3 P_Ucs4 P_Ucs5 P_Ucs6.
 
 Theorem max_footprint_spec : forall C, wf C -> forall h, fp_nonneg h ->
   (forall S, NoDup S -> Z.of_nat (List.length S) <= c_ktarget C - 1 -> total_for h S <= max_footprint C h)
@@ -108,6 +108,22 @@ Proof. exact ucs_progress_l. Qed.
 Theorem ucs_quiescent_all_done : forall C, guards C -> uniq C -> forall sched n, is_agent C n = true ->
   quiescent C (fst (run (ucs_proto C) sched)) -> exists rh, In (EvDone n rh) (snd (run (ucs_proto C) sched)).
 Proof. exact ucs_quiescent_all_done_l. Qed.
+
+(* (2) at full strength, state form (P_Ucs6): for every reachable configuration and every entry
+   _replica_hosts[c] = hs of an agent n: n owns c, the hosts are distinct, none owns c, each holds
+   (= has registered) the replica, there are AT MOST k of them, and NO other agent holds a replica
+   of c.  Guard: [uniq C] (unique computation names).  Key invariant ucs_holders_inv (K): every
+   holder of a replica of c is in the hosts list of the token of c in flight; nobody holds one
+   before the owner's replicate order is processed. *)
+Theorem ucs_holders_inv : forall C, wf C -> uniq C -> forall c o, owns C o c = true ->
+  forall cf, reachable (ucs_proto C) cf -> K C c o cf.
+Proof. exact reachable_K. Qed.
+
+Theorem placement_inv : forall C, wf C -> uniq C -> forall cf n c hs,
+  reachable (ucs_proto C) cf -> zlookup c (s_rhosts (w_st (nodes cf n))) = Some hs ->
+  placed C cf n c hs /\ Z.of_nat (List.length hs) <= c_k C
+  /\ forall h, is_agent C h = true -> mem_key Z.eqb c (s_hosted (w_st (nodes cf h))) = true -> In h hs.
+Proof. exact placement_inv_full_l. Qed.
 
 (* non-vacuity: a well-formed 3-agent deployment (k = 2) and a complete schedule in which four
    replicas are accepted (one with a non-empty hosted set) and every agent reports done *)
